@@ -21,8 +21,9 @@ import (
 //
 //	mt <n> <G> <K> <pool> <m0> <m1> ... => <T> <ecount> <c0> <c1> ...
 //	     event limit n, G goroutines x K Trigger calls, hook i limited to m_i (0 = unlimited), c_i = calls of hook i
-//	pt <R> <J> <TG> => <trues> <keep0> <keep1> <keepN> <early0> <earlyN> <racy0> <racy1> <racyN> <badarg>
-//	     R registrar goroutines x J callbacks (some unsubscribed at once, some registering a child), TG Trigger callers
+//	pt <R> <J> <TG> <rounds> => <truesBad> <keep0> <keep1> <keepN> <early0> <earlyN> <racy0> <racy1> <racyN> <badarg>
+//	     per round a fresh event, R registrar goroutines x J callbacks (some unsubscribed at once, some registering a
+//	     child), TG Trigger callers released together; truesBad = rounds in which not exactly one Trigger returned true
 //	hw <G> <K> <H> => <T> <unordered> <f1,s2,uf,us,c> ...
 //	     G x K Trigger calls, H goroutines hooking (and partly unhooking) meanwhile; per hook the logical-clock window
 
@@ -135,11 +136,10 @@ func (w *world) execMT(f []string) (string, string) {
 func (w *world) execPT(f []string) (string, string) {
 	in := cutArrow(f)
 	p, ok := atoiAll(in)
-	if !ok || len(p) != 3 || p[0] < 1 || p[0] > 64 || p[1] < 1 || p[1] > 10000 || p[2] < 1 || p[2] > 64 {
+	if !ok || len(p) != 4 || p[0] < 1 || p[0] > 64 || p[1] < 1 || p[1] > 10000 || p[2] < 1 || p[2] > 64 || p[3] < 1 || p[3] > 100000 {
 		return "pt " + strings.Join(f, " "), "bad-op"
 	}
-	r, j, tg := p[0], p[1], p[2]
-	e := promise.NewEvent1[int]()
+	r, j, tg, rounds := p[0], p[1], p[2], p[3]
 	type cb struct {
 		n      atomic.Int64
 		bad    atomic.Int64
@@ -149,107 +149,119 @@ func (w *world) execPT(f []string) (string, string) {
 		early  bool // unsubscribe returned before any Trigger call began
 		argSum atomic.Int64
 	}
-	cbs := make([]*cb, r*j)
-	var trigBegun atomic.Bool
-	var win atomic.Int64
-	win.Store(-1)
-	var trues atomic.Int64
-	var wg sync.WaitGroup
-	start := make(chan struct{})
-	for a := 0; a < r; a++ {
-		a := a
-		wg.Add(1)
-		go func() {
-			defer wg.Done()
-			<-start
-			for b := 0; b < j; b++ {
-				c := &cb{nest: (a+b)%3 == 0, unsub: (a+2*b)%4 == 1}
-				cbs[a*j+b] = c
-				un := e.OnTrigger(func(v int) {
-					c.n.Add(1)
-					c.argSum.Add(int64(v))
-					if c.nest {
-						e.OnTrigger(func(v2 int) {
-							c.child.Add(1)
-							if v2 != v {
-								c.bad.Add(1)
-							}
-						})
+	var truesBad, keep0, keep1, keepN, early0, earlyN, racy0, racy1, racyN, badarg int
+	for round := 0; round < rounds; round++ {
+		e := promise.NewEvent1[int]()
+		cbs := make([]*cb, r*j)
+		var trigBegun atomic.Bool
+		var win atomic.Int64
+		win.Store(-1)
+		var trues atomic.Int64
+		var wg sync.WaitGroup
+		var start atomic.Bool
+		for a := 0; a < r; a++ {
+			a := a
+			wg.Add(1)
+			go func() {
+				defer wg.Done()
+				for !start.Load() {
+					runtime.Gosched()
+				}
+				for b := 0; b < j; b++ {
+					c := &cb{nest: (a+b)%3 == 0, unsub: (a+2*b)%4 == 1}
+					cbs[a*j+b] = c
+					un := e.OnTrigger(func(v int) {
+						c.n.Add(1)
+						c.argSum.Add(int64(v))
+						if c.nest {
+							e.OnTrigger(func(v2 int) {
+								c.child.Add(1)
+								if v2 != v {
+									c.bad.Add(1)
+								}
+							})
+						}
+					})
+					if c.unsub {
+						un()
+						c.early = !trigBegun.Load()
 					}
-				})
-				if c.unsub {
-					un()
-					c.early = !trigBegun.Load()
+				}
+			}()
+		}
+		for a := 0; a < tg; a++ {
+			a := a
+			wg.Add(1)
+			go func() {
+				defer wg.Done()
+				for !start.Load() {
+					runtime.Gosched()
+				}
+				for x := 0; x < (round%5)*a; x++ {
+					runtime.Gosched() // vary the point at which the triggers hit the registrars
+				}
+				trigBegun.Store(true)
+				if e.Trigger(100 + a) {
+					trues.Add(1)
+					win.Store(int64(100 + a))
+				}
+			}()
+		}
+		start.Store(true)
+		if !waitTimeout(&wg) {
+			w.fail("hang", "promise stress goroutines did not finish", map[string]string{"oracle": "hang", "api": "promise.Event1", "mode": "stress"})
+
+			break
+		}
+		if trues.Load() != 1 {
+			truesBad++
+		}
+		wv := win.Load()
+		for _, c := range cbs {
+			n := int(c.n.Load())
+			if n > 0 && c.argSum.Load() != int64(n)*wv {
+				badarg++
+			}
+			badarg += int(c.bad.Load())
+			if c.nest && int(c.child.Load()) != n {
+				badarg++ // a child registered during the parent's invocation must run exactly once per invocation
+			}
+			switch {
+			case !c.unsub:
+				switch n {
+				case 0:
+					keep0++
+				case 1:
+					keep1++
+				default:
+					keepN++
+				}
+			case c.early:
+				if n == 0 {
+					early0++
+				} else {
+					earlyN++
+				}
+			default:
+				switch n {
+				case 0:
+					racy0++
+				case 1:
+					racy1++
+				default:
+					racyN++
 				}
 			}
-		}()
-	}
-	for a := 0; a < tg; a++ {
-		a := a
-		wg.Add(1)
-		go func() {
-			defer wg.Done()
-			<-start
-			if a > 0 {
-				time.Sleep(time.Duration(a*20) * time.Microsecond)
-			}
-			trigBegun.Store(true)
-			if e.Trigger(100 + a) {
-				trues.Add(1)
-				win.Store(int64(100 + a))
-			}
-		}()
-	}
-	close(start)
-	if !waitTimeout(&wg) {
-		w.fail("hang", "promise stress goroutines did not finish", map[string]string{"oracle": "hang", "api": "promise.Event1", "mode": "stress"})
-	}
-	var keep0, keep1, keepN, early0, earlyN, racy0, racy1, racyN, badarg int
-	wv := win.Load()
-	for _, c := range cbs {
-		n := int(c.n.Load())
-		if n > 0 && c.argSum.Load() != int64(n)*wv {
-			badarg++
-		}
-		badarg += int(c.bad.Load())
-		if c.nest && int(c.child.Load()) != n {
-			badarg++ // a child registered during the parent's invocation must run exactly once per invocation
-		}
-		switch {
-		case !c.unsub:
-			switch n {
-			case 0:
-				keep0++
-			case 1:
-				keep1++
-			default:
-				keepN++
-			}
-		case c.early:
-			if n == 0 {
-				early0++
-			} else {
-				earlyN++
-			}
-		default:
-			switch n {
-			case 0:
-				racy0++
-			case 1:
-				racy1++
-			default:
-				racyN++
-			}
 		}
 	}
-	if trues.Load() != 1 || keep0 != 0 || keepN != 0 || earlyN != 0 || racyN != 0 || badarg != 0 {
-		w.fail("promise-once", fmt.Sprintf("promise stress R=%d J=%d TG=%d: Trigger returned true %d times; kept callbacks run 0/1/more times: %d/%d/%d; unsubscribed before Trigger and run: %d; unsubscribed concurrently and run twice: %d; wrong argument or child count: %d",
-			r, j, tg, trues.Load(), keep0, keep1, keepN, earlyN, racyN, badarg),
+	if truesBad != 0 || keep0 != 0 || keepN != 0 || earlyN != 0 || racyN != 0 || badarg != 0 {
+		w.fail("promise-once", fmt.Sprintf("promise stress R=%d J=%d TG=%d x %d rounds: rounds in which not exactly one Trigger returned true: %d; kept callbacks run 0/1/more times: %d/%d/%d; unsubscribed before Trigger and run: %d; unsubscribed concurrently and run twice: %d; wrong argument or child count: %d",
+			r, j, tg, rounds, truesBad, keep0, keep1, keepN, earlyN, racyN, badarg),
 			map[string]string{"oracle": "callback-count", "api": "promise.Event1", "mode": "stress"})
 	}
 	w.res.nontrivial = true
 
-	return fmt.Sprintf("pt %d %d %d => %d %d %d %d %d %d %d %d %d %d", r, j, tg, trues.Load(), keep0, keep1, keepN, early0, earlyN, racy0, racy1, racyN, badarg), "accept"
+	return fmt.Sprintf("pt %d %d %d %d => %d %d %d %d %d %d %d %d %d %d", r, j, tg, rounds, truesBad, keep0, keep1, keepN, early0, earlyN, racy0, racy1, racyN, badarg), "accept"
 }
 
 func (w *world) execHW(f []string) (string, string) {
@@ -387,7 +399,7 @@ func genStress(rng *hx.Rng, scale int) [][]string {
 		cases = append(cases, []string{fmt.Sprintf("mt %d %d %d %d %s", n, g, k, rng.Intn(2), strings.Join(lims, " "))})
 	}
 	for i := 0; i < 12*scale; i++ {
-		cases = append(cases, []string{fmt.Sprintf("pt %d %d %d", 2+rng.Intn(6), hx.Pick(rng, []int{1, 10, 100}), 1+rng.Intn(4))})
+		cases = append(cases, []string{fmt.Sprintf("pt %d %d %d %d", 2+rng.Intn(6), hx.Pick(rng, []int{1, 3, 10, 100}), 1+rng.Intn(4), hx.Pick(rng, []int{20, 100, 300}))})
 	}
 	for i := 0; i < 8*scale; i++ {
 		cases = append(cases, []string{fmt.Sprintf("hw %d %d %d", 2+rng.Intn(4), hx.Pick(rng, []int{20, 200, 1000}), 1+rng.Intn(5))})
